@@ -314,10 +314,10 @@ Init ==
     /\ path = <<>>
 
 Step(S, l) ==
-    /\ Len(path) < MaxOps \/ ~Record
+    /\ Len(path) < MaxOps
     /\ s' = Norm(S)
     /\ last' = l
-    /\ path' = IF Record THEN Append(path, l) ELSE path
+    /\ path' = Append(path, IF Record THEN l ELSE 0)   \* ~Record: a depth counter only
 
 \* pure getters: fresh cells in both variants, heap unchanged
 GetCurrent     == \E k \in Keys \cup {"ALL"} : Step(s, Lbl("get_current", k, 0, 0, FALSE))
@@ -405,8 +405,6 @@ OnePerCommit ==
                    /\ LET n == H(s', k)[Len(H(s', k))]
                       IN  n \notin Internal(s) \cup s.ext /\ s'.arr[n] = s.arr[s.cur[k]]
          /\ H(s', "beta") = IF s.beta = 0 THEN H(s, "beta") ELSE Append(H(s, "beta"), s.beta)
-         /\ \A o \in ScribbleOps : TRUE]_vars
+        ]_vars
 
-\* bounded exploration without the history variable
-Bound == TRUE
 =============================================================================
